@@ -115,8 +115,17 @@ class Observer:
         with seams.quiet():
             snap = ctxsim.snapshot()
             spec = self.scn["anns"][op["ann"]]
-            ctx = model.Ctx.from_snapshot(snap, self._args(run))
-            outs, post = model.match_array(spec, op["val"], ctx)
+            if snap.get("wb"):
+                ctx = model.Ctx.from_snapshot(snap, self._args(run))
+                outs, post = model.match_array(spec, op["val"], ctx)
+            else:
+                # white-box memo unavailable: bindings from print_bindings(), outcome set = union over the unprinted flags
+                self.stats.inc("judged_from_print_bindings_only")
+                base = model.Ctx.from_text(ctxsim.bindings_text(), self._args(run))
+                outs, post = set(), None
+                for c in base.variants():
+                    o, _ = model.match_array(spec, op["val"], c)
+                    outs |= o
         self.pending = (snap, outs, post, bool(run.frames))
 
     def post(self, interp, run, op, path, out):
